@@ -83,7 +83,7 @@ def grid(tier, rng):
     return pts
 
 
-DEGREES = [-2.0, -1.0, -0.5, 0.0, 0.5, 1.0, 1.5, 2.0, 2.5, 3.0, 4.0, 5.0]
+DEGREES = [-2.0, -1.0, -0.5, -0.3, 0.0, 0.25, 0.5, 1.0, 1.5, 2.0, 2.5, 3.0, 4.0, 5.0]
 LEVELS = [0.1, 0.5, 0.8]
 BADLEVELS = [-1.0, 0.0, 1.0, 1.1]
 
@@ -408,6 +408,27 @@ def judge(pid, seed, tier):
                                 "expectile": 2 * abs((1.0 if z >= y else 0.0) - a) * (z - y)}[f]
                         if abs(r[1] - want) > 1e-12 * (1 + abs(want)):
                             add("identification_function", [f, a, y, z], r, f"closed form {want}")
+    if pid == "C08":
+        # long vectors (lengths around powers of two, where chunked / blocked evaluation would split): element-wise closed form
+        # and the sample average  share of observations <= prediction  -  level
+        for n in (2 ** 15 + 1, 2 ** 16 + 1, 2 ** 15, 100003):
+            yl = (np.arange(n) * 7919 % 1009).astype(float) / 8.0
+            zl = np.full(n, 60.0)
+            zl[-1], zl[0], zl[n // 2] = 200.0, -1.0, yl[n // 2]
+            for f, a in (("mean", 0.5), ("median", 0.5), ("quantile", 0.3), ("expectile", 0.8)):
+                tried += 1
+                r = real(lambda: np.asarray(identification_function(yl, zl, functional=f, level=a), dtype=float))
+                ind = (zl >= yl).astype(float)
+                want = {"mean": zl - yl, "median": ind - 0.5, "quantile": ind - a, "expectile": 2 * np.abs(ind - a) * (zl - yl)}[f]
+                if r[0] != "val":
+                    add("identification_function", dict(functional=f, level=a, n=n), r[:2], "defined for every pair (long vector)")
+                    continue
+                got = np.asarray(identification_function(yl, zl, functional=f, level=a), dtype=float)
+                if got.shape != want.shape or not np.allclose(got, want, rtol=1e-12, atol=0):
+                    k = int(np.argmax(~np.isclose(got, want, rtol=1e-12, atol=0))) if got.shape == want.shape else None
+                    add("identification_function", dict(functional=f, level=a, n=n, y="(arange(n) * 7919 % 1009) / 8", z="60 everywhere, z[0] = -1, z[n//2] = y[n//2], z[-1] = 200",
+                                                        first_bad_index=k), [None if k is None else float(got[k]), None if k is None else float(want[k])],
+                        "closed form element by element on a long vector (the sample average is share(y <= z) - level)")
     if pid == "C15":
         for f in ("mean", "median", "expectile", "quantile"):
             for a in levels:
